@@ -621,6 +621,7 @@ def run_check(mod, tier="quick", seed=0, replay=None):
         cases = [rp["case"]] if "case" in rp else rp.get("cases", [])
         if rp.get("hashseed") is not None:
             hashseeds = [str(rp["hashseed"])]
+        replay_env = rp.get("env")
     else:
         cases = list(getattr(mod, "corpus", lambda: [])())
         for c in cases:
@@ -628,6 +629,8 @@ def run_check(mod, tier="quick", seed=0, replay=None):
         cases += mod.generate(rng, tier)
     for i, c in enumerate(cases):
         c["_id"] = i
+    if not replay:
+        replay_env = None
     evaluations = 0
     disagreements = []   # (case, out, why, hashseed)
     failing = []         # (case, out, detail, hashseed)
@@ -640,7 +643,7 @@ def run_check(mod, tier="quick", seed=0, replay=None):
     have_coq = hasattr(mod, "coq_jobs")
     for hs in hashseeds:
         try:
-            outs = run_impl(modname, cases, hashseed=hs)
+            outs = run_impl(modname, cases, hashseed=hs, extra_env=replay_env)
         except Exception as e:
             violations.append(("harness", "implementation runner failed: %s" % e, {"error": str(e)}))
             break
@@ -670,6 +673,24 @@ def run_check(mod, tier="quick", seed=0, replay=None):
                 legacy_hits.append((c, o, v, hs))
             elif v.startswith("skip"):
                 skipped += 1
+    # the same cases once more under other per-process configurations (predicate only): asserts stripped (python -O)
+    for xenv in getattr(mod, "IMPL_ENVS", [{"PYTHONOPTIMIZE": "1"}]):
+        if replay or not cases:
+            break
+        try:
+            outs = run_impl(modname, cases, hashseed=hashseeds[0], extra_env=xenv)
+        except Exception as e:
+            violations.append(("harness", "implementation runner failed under %r: %s" % (xenv, e), {"error": str(e), "env": xenv}))
+            break
+        tag = ",".join("%s=%s" % kv for kv in sorted(xenv.items()))
+        for c, o in zip(cases, outs):
+            evaluations += 1
+            try:
+                okp, detail = mod.predicate(c, o)
+            except Exception as e:
+                okp, detail = False, "predicate raised %r" % (e,)
+            if not okp:
+                failing.append((dict(c, _env=xenv), o, "env[%s]-%s" % (tag, detail), hashseeds[0]))
     log("[%s] %d evaluations, %d disagreements, %d legacy-agreements, %d predicate failures, %d skipped"
         % (pid, evaluations, len(disagreements), len(legacy_hits), len(failing), skipped))
 
@@ -682,8 +703,10 @@ def run_check(mod, tier="quick", seed=0, replay=None):
     # ---- 3. verdict -----------------------------------------------------------------------
     shrink_hs = [hashseeds[0]]
 
+    shrink_env = [None]
+
     def fails_now(case):
-        o = run_impl(modname, [case], hashseed=shrink_hs[0])[0]
+        o = run_impl(modname, [case], hashseed=shrink_hs[0], extra_env=shrink_env[0])[0]
         okp, _ = mod.predicate(case, o)
         return not okp
 
@@ -702,18 +725,19 @@ def run_check(mod, tier="quick", seed=0, replay=None):
         reported.add(key)
         small = c
         try:
-            shrink_hs[0] = hs          # shrink under the hash seed the failure was seen with
-            small = shrink(mod, c, fails_now)
+            shrink_hs[0] = hs          # shrink under the hash seed / environment the failure was seen with
+            shrink_env[0] = c.get("_env")
+            small = shrink(mod, {k: v for k, v in c.items() if k != "_env"}, fails_now)
         except Exception:
             small = c
         try:
-            so = run_impl(modname, [small], hashseed=hs)[0]
+            so = run_impl(modname, [small], hashseed=hs, extra_env=c.get("_env"))[0]
             _, sdetail = mod.predicate(small, so)
         except Exception:
             so, sdetail = o, detail
         violations.append(("input", detail, {
             "property": pid, "kind": "failing-input", "case": small, "original_case": c, "impl_output": so,
-            "spec_detail": sdetail, "hashseed": hs,
+            "spec_detail": sdetail, "hashseed": hs, "env": c.get("_env"),
             "how_to_replay": "./check %s --replay <this file>" % pid}))
 
     broken = []
